@@ -127,6 +127,12 @@ class Ctx:
             # the generated part of the development (gen/*.v) is regenerated from /repo's current tree before every proof check
             rc0, out0 = sh(['python3', os.path.join(ROOT, 'tools', 'extract_facts.py')])
             self.notes['extract_facts'] = out0.strip().split('\n')[-12:]
+            builds = 'A,B' if self.prop == 'C17' else ('A,C' if self.prop in ('C04', 'C05', 'C14', 'C15', 'C18') else 'A')
+            rc1, out1 = sh(['python3', os.path.join(ROOT, 'tools', 'cfg_audit.py'), '--builds=' + builds])
+            if rc1 != 0:
+                # code newly put under (or taken out of) a feature condition: the builds the checks use may not contain it at all
+                self.checker_cmds.append('python3 tools/cfg_audit.py  (DIFFERENCES)')
+                return False, out1[-3000:]
             if rc0 != 0:
                 # the generated part of the development could not be regenerated from this tree: nothing below it is about this tree
                 self.checker_cmds.append('python3 tools/extract_facts.py  (FAILED)')
